@@ -234,7 +234,7 @@ func (p *prop) genImp(r *vh.Rng) (string, bool) {
 			keyed := (j == 0 && rk) || (j == 1 && ck)
 			switch {
 			case j == 2:
-				rec = append(rec, r.PickS("", "", "x", "2019-01-01T00:00x"))
+				rec = append(rec, r.PickS("", "", "x", "zz")) // never a valid timestamp (timestamps are outside the model)
 			case keyed:
 				rec = append(rec, atomsKey[r.Intn(len(atomsKey))])
 			default:
